@@ -267,6 +267,13 @@ func (r *Report) writeEvidence(m runMeta, bad, good int) error {
 	if len(r.SelfTest) > 0 {
 		cov["self_validation"] = r.SelfTest
 	}
+	if r.Assumes == nil {
+		r.Assumes = []string{"user-supplied extensions, renderers and parsers are out of scope"}
+	}
+	if r.Trusted == nil {
+		r.Trusted = []string{"Go semantics as modelled by go/ssa", "VTA call graph with pass-site refinement (DESIGN 2.2)"}
+		cov["trusted_base"] = r.Trusted
+	}
 	ev := map[string]interface{}{
 		"property_id": r.Property,
 		"tier":        m.Tier,
